@@ -713,6 +713,21 @@ def helper_calls(idx: Index, S: Sem) -> List[Tuple[FunctionInfo, ast.Call, Sem]]
 
 # ---------------------------------------------------------------------- statement-level inlining of private helpers
 
+def _nest_early_returns(body: List[ast.stmt]) -> List[ast.stmt]:
+    """`if c: …; return X` followed by more statements  →  `if c: …; return X` / `else: <the rest>` (same behaviour; every return ends up in tail
+    position).  `raise` at the end of a guard is treated the same way."""
+    for i, s in enumerate(body):
+        if isinstance(s, ast.If) and not s.orelse and s.body and isinstance(s.body[-1], (ast.Return, ast.Raise)) and i + 1 < len(body) \
+                and any(isinstance(r, ast.Return) for r in ast.walk(s)):
+            s.orelse = _nest_early_returns(body[i + 1:])
+            s.body = _nest_early_returns(s.body)
+            return body[:i] + [s]
+        if isinstance(s, ast.If):
+            s.body = _nest_early_returns(s.body)
+            s.orelse = _nest_early_returns(s.orelse) if s.orelse else s.orelse
+    return body
+
+
 def _tail_position_returns(body: List[ast.stmt]) -> bool:
     """Every `return` of the statement list is in tail position (last statement, or last statement of an arm of a trailing if)."""
     for s in body[:-1]:
@@ -829,8 +844,10 @@ def inline_private_helpers(idx: Index, fi: FunctionInfo, depth: int = 2, skip: O
         tail_form = False
         if sb is None:
             body0 = [s for s in g.node.body if not (isinstance(s, ast.Expr) and isinstance(s.value, ast.Constant) and isinstance(s.value.value, str))]
-            if any(isinstance(n, (ast.Yield, ast.YieldFrom, ast.FunctionDef, ast.AsyncFunctionDef, ast.Lambda, ast.Global, ast.Nonlocal, ast.For, ast.While, ast.Try, ast.With))
-                   for s in body0 for n in ast.walk(s)) or not _tail_position_returns(body0):
+            body0 = _nest_early_returns(copy.deepcopy(body0))
+            loops_with_return = any(isinstance(n, (ast.For, ast.While)) and any(isinstance(r, ast.Return) for r in ast.walk(n)) for s in body0 for n in ast.walk(s))
+            if any(isinstance(n, (ast.Yield, ast.YieldFrom, ast.FunctionDef, ast.AsyncFunctionDef, ast.Lambda, ast.Global, ast.Nonlocal, ast.Try, ast.With))
+                   for s in body0 for n in ast.walk(s)) or loops_with_return or not _tail_position_returns(body0):
                 return None
             sb = (body0, None)
             tail_form = True
@@ -954,7 +971,11 @@ def inline_private_helpers(idx: Index, fi: FunctionInfo, depth: int = 2, skip: O
                         if g_ is None:
                             continue
                         sb_ = _simple_body(g_)
-                        if sb_ is None or (not sb_[0] and sb_[1] is not None and g_.name not in nested):
+                        if sb_ is None:
+                            b0_ = [s_ for s_ in g_.node.body if not (isinstance(s_, ast.Expr) and isinstance(s_.value, ast.Constant) and isinstance(s_.value.value, str))]
+                            if not (len(b0_) > 1 and _tail_position_returns(_nest_early_returns(copy.deepcopy(b0_)))):
+                                continue
+                        elif not sb_[0] and sb_[1] is not None and g_.name not in nested:
                             continue    # single-expression (module / class level) helpers are β-reduced by Sem.resolve
                         count[0] += 1
                         tname = f"_h{count[0]}__{g_.name.strip('_')}"
@@ -1100,6 +1121,9 @@ def loopify_comprehensions(idx: Index, fi: FunctionInfo) -> FunctionInfo:
                 sb = _simple_body(g)
                 if sb is not None and sb[0]:
                     return True
+                body0 = [s_ for s_ in g.node.body if not (isinstance(s_, ast.Expr) and isinstance(s_.value, ast.Constant) and isinstance(s_.value.value, str))]
+                if sb is None and len(body0) > 1 and _tail_position_returns(_nest_early_returns(copy.deepcopy(body0))):
+                    return True
         return False
     changed = [0]
 
@@ -1110,6 +1134,15 @@ def loopify_comprehensions(idx: Index, fi: FunctionInfo) -> FunctionInfo:
                 v = getattr(s, fld, None)
                 if isinstance(v, list) and v and isinstance(v[0], ast.stmt):
                     setattr(s, fld, process(v))
+            if isinstance(s, ast.Return) and isinstance(s.value, (ast.ListComp, ast.DictComp)) and len(s.value.generators) == 1 and not s.value.generators[0].ifs \
+                    and has_helper(s.value.elt if isinstance(s.value, ast.ListComp) else ast.Tuple(elts=[s.value.key, s.value.value], ctx=ast.Load())):
+                # return [ELT for t in IT]  →  _ret = [ELT for t in IT]; return _ret   (then treated below)
+                tmp_ = ast.copy_location(ast.Assign(targets=[ast.Name(id="_ret_comp", ctx=ast.Store())], value=s.value, lineno=s.lineno), s)
+                ret_ = ast.copy_location(ast.Return(value=ast.Name(id="_ret_comp", ctx=ast.Load())), s)
+                ast.fix_missing_locations(tmp_)
+                ast.fix_missing_locations(ret_)
+                out += process([tmp_]) + [ret_]
+                continue
             if isinstance(s, ast.Assign) and len(s.targets) == 1 and isinstance(s.targets[0], ast.Name) and isinstance(s.value, (ast.ListComp, ast.DictComp)) \
                     and len(s.value.generators) == 1 and not s.value.generators[0].ifs and not s.value.generators[0].is_async \
                     and has_helper(s.value.elt if isinstance(s.value, ast.ListComp) else ast.Tuple(elts=[s.value.key, s.value.value], ctx=ast.Load())):
